@@ -168,6 +168,54 @@ def check_tdm_match(text_t, text_p, want):
     return None
 
 
+def special_match(rng, k):
+    """(a) the program's arguments at parametrised places are NumPy integers (they were computed, or read from an
+    integer array, or passed as np.int64); (b) the template has fixed keyword arguments, among them a register
+    expression, next to its parameters"""
+    from blackbird.utils import match_template
+    if k % 2 == 0:
+        r, kk = rng.randrange(1, 6), rng.randrange(1, 6)
+        tt = "name t\nversion 1.0\n\nSgate(2*{r} + 1, 0.5) | 0\nFock({k}) | 1\nRgate(3 - {r}) | 0\n"
+        form = rng.randrange(3)
+        if form == 0:
+            tp = "name t\nversion 1.0\n\nSgate(2*%d + 1, 0.5) | 0\nFock(%d + 0) | 1\nRgate(3 - %d) | 0\n" % (r, kk, r)
+        elif form == 1:
+            tp = "name t\nversion 1.0\n\nint array ks =\n    %d, %d, %d\nSgate(ks[0], 0.5) | 0\nFock(ks[1]) | 1\nRgate(ks[2]) | 0\n" % (2 * r + 1, kk, 3 - r)
+        else:
+            tp = None
+        t = core.impl_loads(tt)
+        if t[0] != "ok":
+            return "template refused: %r" % (t[1],), tt
+        if tp is None:
+            with core.quiet():
+                prog = t[1](r=np.int64(r), k=np.int64(kk))
+        else:
+            pr = core.impl_loads(tp)
+            if pr[0] != "ok":
+                return "program refused: %r" % (pr[1],), tp
+            prog = pr[1]
+        want = {"r": r, "k": kk}
+    else:
+        a = rng.choice([0.5, 0.25, 1.5])
+        tt = ("name t\nversion 1.0\n\nMeasureX | 0\nDgate({a}, phi=0.5*q0, k=[1, 2], s=\"x\") | 1\n"
+              "Rgate(2*{a}, select=q0 + 1) | 2\n")
+        t = core.impl_loads(tt)
+        if t[0] != "ok":
+            return "template refused: %r" % (t[1],), tt
+        with core.quiet():
+            prog = reorder(t[1](a=a), rng)
+        want = {"a": a}
+    with core.quiet():
+        try:
+            res = match_template(t[1], prog)
+        except Exception as e:  # noqa: BLE001
+            return "matching raises %r" % (e,), tt
+    for p_, v in want.items():
+        if p_ not in res or not canon.close(res[p_], v, 1e-9):
+            return "parameter %s recovered as %r, the program was written with %r" % (p_, res.get(p_), v), tt
+    return None, tt
+
+
 def gen_tdm_match(rng):
     npar = rng.randrange(1, 3)
     pars = rng.sample(["phi", "r", "al", "x"], npar)
@@ -228,6 +276,8 @@ def structural_edits(prog, rng):
 
 
 def replay(ctx, data):
+    if data.get("kind") == "special_match":
+        return special_match(random.Random(data["seed"]), data["k"])[0]
     if data.get("kind") == "tdm_match":
         return check_tdm_match(data["template"], data["program"], data["want"])
     if data.get("kind") == "match":
@@ -306,6 +356,13 @@ def run(ctx):
         else:
             corr.append((text, vals, seed))
     match_corr(ctx, corr)
+    for k in range(ctx.n(30, 300)):
+        sd = ctx.rng.randrange(1 << 30)
+        msg, tt = special_match(random.Random(sd), k)
+        ctx.count("stream:numpy-integer-arguments" if k % 2 == 0 else "stream:fixed-keyword-arguments-with-registers")
+        ctx.case(("special", k, sd), nontrivial=True)
+        if msg:
+            ctx.violation("template matching: " + msg, {"kind": "special_match", "seed": sd, "k": k})
     for _ in range(ctx.n(60, 600)):
         tt, tp, want = gen_tdm_match(ctx.rng)
         ctx.count("stream:tdm-p-arrays-in-parameter-places")
